@@ -288,3 +288,22 @@ def treeseq_init(ctx, P, rule="TS-GATE"):
                         okw = f.name in ("tsk_treeseq_init", "tsk_treeseq_free")
                         ctx.ob(rule, "writes|%s|%s" % (f.name, l.name), okw, t.loc(x),
                                "%s assigns tsk_treeseq_t.%s%s" % (f.name, l.name, "" if okw else ": only tsk_treeseq_init may construct a tree sequence"))
+
+
+def gate_loops(ctx, P, rule="GATE-LOOPS"):
+    ctx.rule(rule, "the row loops of the integrity gate visit every row: no gate function contains a `break`, and "
+                   "tsk_is_unknown_time compares the complete 64-bit pattern of the value with the unknown-time constant (no bit "
+                   "is masked off, so only the exact sentinel is exempt from the finiteness checks)")
+    tu = P.tus["tables"]
+    for g in GATE_FUNCS:
+        fn = P.need(g, "tables")
+        br = [x for x in walk(fn.body) if x.k == "BreakStmt"]
+        ctx.ob(rule, "no-break|" + g, not br, tu.loc(br[0]) if br else tu.loc(fn.node),
+               "no break" if not br else "a `break` leaves a validation loop early: the remaining rows are never checked")
+    cu = P.tus["core"]
+    fn = P.func("tsk_is_unknown_time", "core")
+    ctx.need(fn is not None, "tsk_is_unknown_time")
+    rets = [x for x in walk(fn.body) if x.k == "ReturnStmt"]
+    txt = estr(rets[-1].kids[0]) if rets else ""
+    ok = bool(re.fullmatch(r"\(\w+\.i == TSK_UNKNOWN_TIME_HEX\)", txt))
+    ctx.ob(rule, "tsk_is_unknown_time", ok, cu.loc(fn.node), "returns `%s`" % txt)
